@@ -18,6 +18,7 @@ package props
 import (
 	"fmt"
 	"net/netip"
+	"strings"
 	"testing"
 
 	"github.com/fxamacker/cbor/v2"
@@ -161,7 +162,19 @@ func TestC06(t *testing.T) {
 		st.Router.Isolate = c.Bool("isolate")
 
 		vn := vnet.New()
-		V, err := vn.AddNode("V", vID, vnet.NodeOpts{Store: st, WithTun: true})
+		// A third of the configurations reach the router the way they do in the
+		// program: through a configuration file. JSON only: on the pinned tree
+		// yaml.v3 panics on the "omitzero" flag in the tags of the address block
+		// every configuration contains, so no YAML configuration loads at all
+		// (an observation outside the properties, see DESIGN.md 10.3).
+		viaFile := core.OneOf(c, "config.via", "", "", "json")
+		V, err := vn.AddNode("V", vID, vnet.NodeOpts{Store: st, WithTun: true, ViaFile: viaFile})
+		if err != nil && strings.Contains(err.Error(), "is refused as a") {
+			c.Fatalf("%v", err)
+		}
+		if viaFile != "" && err == nil {
+			c.Class("configuration-loaded-from-a-" + viaFile + "-file")
+		}
 		if err != nil {
 			// Configuration refused by the parser: outside the quantified domain.
 			c.Class("config-refused")
